@@ -1615,8 +1615,8 @@ class Engine:
         # coerce actuals to declared parameter types
         for n, ty in c.params.items():
             if isinstance(ty, list) and n in penv:
-                match = None
-                for t in ty:
+                match = penv[n].ty if penv[n].ty in ty else None      # exact type first
+                for t in ([] if match is not None else ty):
                     if t.kind != penv[n].ty.kind:
                         continue
                     try:
